@@ -430,7 +430,19 @@ func c08AdvValid(p *chk.Prog, r *chk.Report) {
 	if lm != nil {
 		g := lm.Graph()
 		ok := false
-		for _, rs := range lm.RangeLoops(isParamIdx(lm, 0)) {
+		list := isParamIdx(lm, 0)
+		for _, rs := range lm.RangeLoops(func(e ast.Expr) bool {
+			if list(e) {
+				return true
+			}
+			// the elements after the first, when the running minimum starts as the first element's length
+			if sl, isSl := ast.Unparen(e).(*ast.SliceExpr); isSl && list(sl.X) && sl.High == nil && sl.Max == nil && sl.Low != nil {
+				if c := lm.ConstVal(sl.Low); c != nil && c.ExactString() == "1" {
+					return len(g.FindPat("G[0].Mask.Size()", chk.H("G", list))) > 0
+				}
+			}
+			return false
+		}) {
 			// lowest = s under lowest > s, for every element
 			for _, s := range g.Find(lm.IsAssignPat("L", "S")) {
 				if chk.InBody(rs, s.Node) {
@@ -438,6 +450,20 @@ func c08AdvValid(p *chk.Prog, r *chk.Report) {
 					lo, sz := as.Lhs[0], as.Rhs[0]
 					ok = g.Dominated(s, g.GPat(true, "L > S", chk.H("L", func(e ast.Expr) bool { return lm.SameExpr(e, lo) }), chk.H("S", func(e ast.Expr) bool { return lm.SameExpr(e, sz) }))) &&
 						!loopHasBreak(g, rs)
+					if _, sliced := ast.Unparen(rs.X).(*ast.SliceExpr); sliced && ok {
+						// the first element is the starting value of the very variable that is lowered
+						ok = false
+						if id, isId := ast.Unparen(lo).(*ast.Ident); isId {
+							for _, d := range assignsTo(lm, lm.ObjOf(id)) {
+								if as0, isAs := d.(*ast.AssignStmt); isAs && !chk.InBody(rs, as0) && len(as0.Rhs) == 1 && as0.Lhs[0] == ast.Expr(as0.Lhs[0]) &&
+									lm.MatchWith("G[0].Mask.Size()", as0.Rhs[0], chk.H("G", list)) != nil {
+									if l0, isL := as0.Lhs[0].(*ast.Ident); isL && lm.ObjOf(l0) == lm.ObjOf(id) {
+										ok = true
+									}
+								}
+							}
+						}
+					}
 				}
 			}
 		}
